@@ -273,6 +273,14 @@ def rigid_rules(ctx):
 def run(ctx):
     ctx.attempt(stored_frame_rule, ctx)
     ctx.attempt(fibre_derivative_rule, ctx)
+    from . import c09 as _c09
+
+    # 'a beam gives the same response in its own axes whatever its inclination': the loads of an inclined member too
+    ctx.attempt(_c09.beam_lineload_rule, ctx)
+    from . import c11 as _c11
+
+    # rotating the material axes rotates the law, whatever the notation the material was given in
+    ctx.attempt(_c11.notation_rotation_rule, ctx)
     # a re-oriented member / material gives the re-oriented response also on a simulation that was already assembled: no memo keyed by an object whose axes it reads
     from ..shared import memo_rule as _memo_rule, cached_param_rule as _cached_param_rule
 
